@@ -74,12 +74,16 @@ func verifTagFlowFrom(finding, decoded bool) {
 	}
 
 	perr := ts.Put(context.Background(), tag, d, 0)
-	verif.Cover("put-ok", perr == nil)
+	if !finding {
+		verif.Cover("put-ok", perr == nil)
+	}
 	verif.Cover("put-rejected", perr != nil)
 	httputil.KseSame("put-leaves-outside-untouched", before, t.Outside())
 
 	got, gerr := ts.Get(tag)
-	verif.Cover("get-ok", gerr == nil)
+	if !finding {
+		verif.Cover("get-ok", gerr == nil)
+	}
 	if gerr == nil {
 		verif.Assert("get-never-returns-outside-content", got.String() != httputil.KseDecoy)
 	}
